@@ -12,7 +12,7 @@ for d in sorted(glob.glob("/verif/seeded/*")):
     st["kept"] += 1
     if o.startswith("caught:"):
         st["caught by the check as first built"] += 1
-    elif o.startswith("caught after") or o.startswith("first run: INFRASTRUCTURE"):
+    elif o.startswith("caught") or o.startswith("first run: INFRASTRUCTURE"):
         st["missed first, caught after strengthening"] += 1
     elif "but caught by" in o:
         st["missed by its own check, caught by a neighbouring property's check"] += 1
